@@ -106,6 +106,8 @@ func Universe() []UVal {
 		specU("1e300", SFloat(1e300)),
 		specU("float32(1.25)", withRep(SFloat(1.25), "float32")),
 		specU("2^53f", SFloat(1<<53)),
+		specU("2^53+1", SInt(1<<53+1)),
+		specU("2^63f", SFloat(9223372036854775808.0)),
 		specU("float32(2^24)", withRep(SFloat(16777216), "float32")),
 		specU("2^24+1", SInt(16777217)),
 		specU("0.1", SFloat(0.1)),
